@@ -824,3 +824,40 @@ pub fn replay_histories(out: &mut TraceOut, corner: usize, hists: &[Vec<(String,
     }
     (compared, drift)
 }
+
+/// C17 on the read paths: reader / iterator / merger scenarios run under the allocation monitor;
+/// their own events go to a scratch trace, only the allocator summary is logged.
+pub fn scn_alloc_readers(out: &mut TraceOut, r: &mut R, idx: u64, heavy: bool, scratch: &std::path::Path) {
+    use crate::alloc;
+    let before = alloc::snapshot();
+    let mut after_first = before;
+    let mut panicked = String::new();
+    for round in 0..2 {
+        let mut tmp = TraceOut::new(scratch, "scratch", 1);
+        let mut rr = rng(idx, 4242);
+        let res = catch_unwind(AssertUnwindSafe(|| {
+            tmp.begin("scratch");
+            match idx % 4 {
+                0 => scn_history(&mut tmp, &mut rr, idx / 4, heavy, 2, 300),
+                1 => scn_roundtrip(&mut tmp, &mut rr, idx / 4, heavy, 2),
+                2 => crate::iters::scn_iters(&mut tmp, &mut rr, idx / 4, heavy, 2, true, true),
+                _ => crate::merger::scn_merge(&mut tmp, &mut rr, idx / 4, heavy),
+            }
+        }));
+        if let Err(e) = res {
+            panicked = panic_msg(e);
+        }
+        drop(tmp.finish());
+        if round == 0 {
+            after_first = alloc::snapshot();
+        }
+    }
+    let _ = r;
+    let end = alloc::snapshot();
+    let (ma, mf) = alloc::first_mismatch();
+    out.ev(json!({"ev": "ARun", "res": if panicked.is_empty() { "ok" } else { "panic" }, "overflow": panicked.contains("overflow"), "detail": panicked}));
+    out.ev(json!({"ev": "AllocSummary", "allocs": end.allocs - before.allocs,
+                  "mismatch": end.mismatch - before.mismatch, "guard": end.guard - before.guard,
+                  "double_free": end.double_free - before.double_free, "bad_magic": end.bad_magic - before.bad_magic,
+                  "leaked_class": end.live_class - after_first.live_class, "first_mismatch": [ma, mf]}));
+}
